@@ -18,7 +18,7 @@ RULE = ("methods described as {phase: statements with explicit ids and depends_o
         "phases}; random: 5-12 node graphs with planted long cycles. distinct = canonical JSON; "
         "non-trivial = at least one dependency edge or a switch/flag statement")
 ASSUMPTIONS = [
-    "statement ids are unique within a method (the property does not speak about duplicate ids)",
+    "statement ids are unique within a phase; different phases may re-use ids (the builder's ids are per phase)",
     "ill-formedness classes are exactly the four the property lists",
 ]
 ANCHORS = ["dagrt.codegen.analysis:verify_code",
@@ -269,6 +269,16 @@ def exhaustive(tier):
                     qst.append({"id": "c2", "kind": "condassign", "flag": "f", "deps": []})
                 yield {"phases": {"p": {"stmts": base, "next": "p"},
                                   "q": {"stmts": qst, "next": "p"}}, "initial": "p"}
+    # ids are only unique per phase: another phase re-uses this phase's ids (both phase orders)
+    for n in (1, 2, 3):
+        ids = [f"s{i}" for i in range(n)]
+        all_sub = list(subsets(ids + ["zz"]))
+        for combo in itertools.product(all_sub, repeat=n):
+            base = [{"id": ids[i], "kind": "nop", "deps": list(combo[i])} for i in range(n)]
+            for shared in (ids[:1], ids):
+                other = {"stmts": [{"id": x, "kind": "nop", "deps": []} for x in shared], "next": "p"}
+                yield {"phases": {"p": {"stmts": base, "next": "p"}, "q": other}, "initial": "p"}
+                yield {"phases": {"q": other, "p": {"stmts": base, "next": "p"}}, "initial": "p"}
     # single phase only (no other phase to pool ids with)
     for n in (1, 2, 3):
         ids = [f"s{i}" for i in range(n)]
@@ -293,9 +303,10 @@ def rand_desc(rng):
     pn = ["p", "q", "r"][:nph]
     phases = {}
     allids = {}
+    share = rng.random() < 0.4          # ids are per-phase namespaces: phases may re-use each other's ids
     for p in pn:
         n = rng.randint(3, 12)
-        allids[p] = [f"{p}{i}" for i in range(n)]
+        allids[p] = [(f"s{i}" if share else f"{p}{i}") for i in range(n)]
     mode = rng.choice(["dag", "dag", "cycle", "dangling", "cross", "mixed"])
     for p in pn:
         ids = allids[p]
@@ -325,7 +336,9 @@ def rand_desc(rng):
         rng.choice(phases[p]["stmts"])["deps"].append("nonexistent")
     if mode in ("cross", "mixed") and nph > 1:
         p, q = rng.sample(pn, 2)
-        rng.choice(phases[p]["stmts"])["deps"].append(rng.choice(allids[q]))
+        foreign = [x for x in allids[q] if x not in allids[p]]
+        if foreign:
+            rng.choice(phases[p]["stmts"])["deps"].append(rng.choice(foreign))
     if rng.random() < 0.4:
         p = rng.choice(pn)
         last = phases[p]["stmts"][-1]["id"]
